@@ -226,6 +226,8 @@ structure HsFields where
   restart : Bool := false
   minver : Nat := 0
   curver : Nat := 3
+  /-- the version whose field layout the datagram uses (= `curver` for a genuine datagram; a crafted one may advertise another version in that layout) -/
+  layout : Nat := 3
   ptype : Nat := 0
   count : Nat := 0
   netver : Nat := 0
@@ -277,16 +279,16 @@ def hsDecodeFields (e : Env) (bytes : List UInt8) : Option HsFields :=
     match readBits 160 r with
     | .fail _ => none
     | .ok ck _ =>
-      some { session := bitsToNat s, client := bitsToNat c, restart := restart, minver := minv, curver := curv, ptype := ptype,
+      some { session := bitsToNat s, client := bitsToNat c, restart := restart, minver := minv, curver := curv, layout := curv, ptype := ptype,
              count := cnt, netver := netv, sid := sid, ts := ts, cookie := ck }
 
 def hsEncodeFields (e : Env) (f : HsFields) (extra : Option (List UInt8)) (pad : Nat) : List UInt8 :=
   bitsToBytes (
     natToBits e.magic e.magicBits
-    ++ (if f.curver ≥ 3 then natToBits f.session 2 ++ natToBits f.client 3 else [])
+    ++ (if f.layout ≥ 3 then natToBits f.session 2 ++ natToBits f.client 3 else [])
     ++ [true, f.restart]
-    ++ (if f.curver ≥ 1 then writeByte f.minver ++ writeByte f.curver ++ writeByte f.ptype ++ writeByte f.count else [])
-    ++ (if f.curver ≥ 2 then writeU32 f.netver else [])
+    ++ (if f.layout ≥ 1 then writeByte f.minver ++ writeByte f.curver ++ writeByte f.ptype ++ writeByte f.count else [])
+    ++ (if f.layout ≥ 2 then writeU32 f.netver else [])
     -- a restart-handshake request (type 4) carries no secret id / timestamp / cookie
     ++ (if f.ptype == 4 then [] else [f.sid] ++ f.ts ++ f.cookie ++ (match extra with | some x => bytesToBits x | none => []))
     ++ List.replicate (8 * pad) false ++ [true])
@@ -302,7 +304,8 @@ def craftDatagram (e : Env) (src : List UInt8) (args : List Int) : Option (List 
     let g (i : Nat) : Int := args.getD i (-1)
     let f := if g 0 ≥ 0 then { f with restart := (g 0).toNat % 2 == 1 } else f
     let f := if g 1 ≥ 0 then { f with ptype := (g 1).toNat % 256 } else f
-    let f := if g 2 ≥ 0 then { f with curver := (g 2).toNat % 256 } else f
+    -- 0..255: that version, in that version's layout; 300 + v: advertise v but keep the layout of the source datagram
+    let f := if g 2 ≥ 300 then { f with curver := ((g 2).toNat - 300) % 256 } else if g 2 ≥ 0 then { f with curver := (g 2).toNat % 256, layout := (g 2).toNat % 256 } else f
     let f := if g 3 ≥ 0 then { f with count := (g 3).toNat % 256 } else f
     let f := if g 4 ≥ 0 then { f with sid := (g 4).toNat % 2 == 1 } else f
     let f := if g 5 ≥ 0 then { f with cookie := flipCookieBit f.cookie (g 5).toNat } else f
